@@ -251,9 +251,11 @@ def check_c10(pid, tier, seed, rep):
     samples = []
     st = dict(with_ctx=0, ctx_from_provider_param=0, with_error=0, ret_is_arg=0, composite_args=0)
     for r in S["records"]:
-        ob = r.get("obs")
-        if not r["id"] or r["kind"] != "valid" or not ob:
+        # the signature is read from the generated file on its own: it does not depend on the body being expressible in the model
+        sg = r.get("sig")
+        if not r["id"] or r["kind"] != "valid" or not sg:
             continue
+        ob = dict(name=r["name"], params=sg["params"], results=sg["results"], reterr=(len(sg["results"]) == 2 and sg["results"][1] == "error"))
         d = r["decl"]
         exp = declgen.expected_signature(d)
         probs = []
